@@ -359,6 +359,21 @@ class Table:
             c_ = off.const()
             if c_ is not None and c_.denominator == 1 and c_ < 0:
                 return self.atom('idx', (args[0], self.const(c_)))
+        # an item of a leading slice is the item itself: x[:n][k] is x[k] for 0 <= k < n
+        if head == 'idx' and len(args) == 2 and isinstance(args[0], RF) and isinstance(args[1], RF) and \
+                args[1].const() is not None and args[1].const().denominator == 1 and args[1].const() >= 0 and \
+                args[0].single_atom() is not None:
+            in_ = self.atoms[args[0].single_atom()]
+            if in_.head == 'idx' and len(in_.args) == 2 and isinstance(in_.args[1], Slice) and in_.args[1].step is None and \
+                    (in_.args[1].lo is None or in_.args[1].lo.const() == 0) and in_.args[1].hi is not None and \
+                    in_.args[1].hi.const() is not None and args[1].const() < in_.args[1].hi.const():
+                return self.atom('idx', (in_.args[0], args[1]))
+        # the fields of inspect.getfullargspec(...) by name are its items by position
+        if head == 'getattr' and len(args) == 2 and isinstance(args[0], RF) and args[1] in _FULLARGSPEC and \
+                args[0].single_atom() is not None:
+            ca_ = self.atoms[args[0].single_atom()]
+            if ca_.head in ('call', 'mcall') and ca_.extra and ca_.extra[0].endswith('getfullargspec'):
+                return self.atom('idx', (args[0], self.const(_FULLARGSPEC.index(args[1]))))
         # a column picked first and a row second is the element picked at once: x[:, j][i] is x[i, j]
         if head == 'idx' and len(args) == 2 and isinstance(args[0], RF) and args[0].single_atom() is not None and \
                 isinstance(args[1], RF):
@@ -697,6 +712,7 @@ class Table:
 
 
 # ----------------------------------------------------------------------------
+_FULLARGSPEC = ('args', 'varargs', 'varkw', 'defaults', 'kwonlyargs', 'kwonlydefaults', 'annotations')
 NUMERIC_MODULES = {'np', 'numpy', 'math', 'numba', 'scipy', 'sp'}
 ERASED_CALLS = {'float', 'float64', 'asarray', 'asanyarray', 'array', 'ravel', 'flatten',
                 'copy', 'ascontiguousarray', 'squeeze', 'tolist'}
